@@ -48,6 +48,10 @@ pub trait Engine {
     fn canon_b(b: &Value) -> Value;
     /// every public read entry point, canonical
     fn reads(s: &Self::S, d: &Dims) -> Value;
+    /// reads without the derived contexts: enough for the before/after comparisons of the per-state obligations
+    fn reads_light(s: &Self::S, d: &Dims) -> Value {
+        Self::reads(s, d)
+    }
     /// the same shape built from the layer-A expectations of a dump line
     fn exp_reads(a: &Value, d: &Dims) -> Value;
     /// the reads a state equal to the model's B state would show (to tell
@@ -94,6 +98,11 @@ pub trait Engine {
     /// properties a wrong API-built op (identifier, dot, context) is reported under
     fn gen_op_props() -> Vec<&'static str> {
         vec!["C07"]
+    }
+    /// further properties under which a wrong validate_op / validate_merge verdict is reported
+    /// (C11 names LWWReg's conflict flag explicitly)
+    fn validation_props() -> Vec<&'static str> {
+        vec![]
     }
     /// the semantic property a particular read path belongs to
     fn semantic_prop_for(_path: &str) -> &'static str {
@@ -1007,7 +1016,7 @@ impl<'a, E: Engine> Replayer<'a, E> {
         let d = self.dims.clone();
         let s = &sys.st[who - 1];
         let pend_now = E::has_pending(s);
-        let base_reads = E::reads(s, &d);
+        let base_reads = E::reads_light(s, &d);
         let base_proj = E::proj(s, &d);
         let ob = &ln["ob"];
         // model verdict <<reads equal, state equal>> at ob.<name>[i][j]..., if the model printed it
@@ -1034,7 +1043,7 @@ impl<'a, E: Engine> Replayer<'a, E> {
             match res {
                 Ok(c) => {
                     let m = mv(&ob["dup"], *i - 1);
-                    let r2 = E::reads(&c, &d);
+                    let r2 = E::reads_light(&c, &d);
                     self.judge(&p_reads, "dup.reads", json!(r2 == base_reads), json!(true), m.as_ref().and_then(|x| mv(x, 0)), h, pend_now, json!({"op": i}));
                     let p2 = E::proj(&c, &d);
                     self.judge(&p_state, "dup.state", json!(p2 == base_proj), json!(true), m.as_ref().and_then(|x| mv(x, 1)), h, pend_now, json!({"op": i}));
@@ -1056,7 +1065,9 @@ impl<'a, E: Engine> Replayer<'a, E> {
                     let op = &sys.ops[i].op;
                     let real = catch(|| E::validate_op(st, op)).unwrap_or_else(|e| format!("PANIC {}", e));
                     let m = mv(&ln["vopB"], q).and_then(|x| mv(&x, i));
-                    self.judge(&["C16"], "vop", json!(real), expv.clone(), m, h, pend_now, json!({"replica": q + 1, "op": i + 1}));
+                    let mut pv = vec!["C16"];
+                    pv.extend(E::validation_props());
+                    self.judge(&pv, "vop", json!(real), expv.clone(), m, h, pend_now, json!({"replica": q + 1, "op": i + 1}));
                 }
             }
         }
@@ -1090,7 +1101,9 @@ impl<'a, E: Engine> Replayer<'a, E> {
             } else {
                 json!("Ok")
             };
-            self.judge(&["C17"], "vm.ok", json!(v1), expvm, model, h, pend_now, json!({"other": name}));
+            let mut pm = vec!["C17"];
+            pm.extend(E::validation_props());
+            self.judge(&pm, "vm.ok", json!(v1), expvm, model, h, pend_now, json!({"other": name}));
             self.judge(&["C17"], "vm.sym", json!(v1 == v2), json!(true), None, h, pend_now, json!({"other": name}));
             if !misuse && ok.is_subset(&sys.know[who - 1]) {
                 let mut c = s.clone();
@@ -1101,7 +1114,7 @@ impl<'a, E: Engine> Replayer<'a, E> {
                 }) {
                     Ok(c) => {
                         let m = if name.starts_with('r') { mv(&ob["stale"], name[1..].parse::<usize>().unwrap() - 1) } else { None };
-                        let r2 = E::reads(&c, &d);
+                        let r2 = E::reads_light(&c, &d);
                         self.judge(&p_reads, "stale.reads", json!(r2 == base_reads), json!(true), m.as_ref().and_then(|x| mv(x, 0)), h, pend_now, json!({"other": name}));
                         let p2 = E::proj(&c, &d);
                         self.judge(&p_state, "stale.state", json!(p2 == base_proj), json!(true), m.as_ref().and_then(|x| mv(x, 1)), h, pend_now, json!({"other": name}));
@@ -1152,7 +1165,7 @@ impl<'a, E: Engine> Replayer<'a, E> {
                 let nrep = d.n;
                 if let Ok(aa) = mg(a, a) {
                     let m = if ia < nrep { mv(&ob["idem"], ia) } else { None };
-                    self.judge(&["C02"], "law.idem.reads", json!(E::reads(&aa, &d) == E::reads(a, &d)), json!(true), m.as_ref().and_then(|x| mv(x, 0)), h, pend_now, json!({"a": ia + 1}));
+                    self.judge(&["C02"], "law.idem.reads", json!(E::reads_light(&aa, &d) == E::reads_light(a, &d)), json!(true), m.as_ref().and_then(|x| mv(x, 0)), h, pend_now, json!({"a": ia + 1}));
                     self.judge(&["C02", "C20"], "law.idem.state", json!(E::proj(&aa, &d) == E::proj(a, &d)), json!(true), m.as_ref().and_then(|x| mv(x, 1)), h, pend_now, json!({"a": ia + 1}));
                 }
                 for (ib, b) in pool.iter().enumerate() {
@@ -1164,7 +1177,7 @@ impl<'a, E: Engine> Replayer<'a, E> {
                     if let (Ok(ab), Ok(ba)) = (&ab, &ba) {
                         if ia < ib {
                             let m = if ia < nrep && ib < nrep { mv(&ob["comm"], ia).and_then(|x| mv(&x, ib)) } else { None };
-                            self.judge(&["C02"], "law.comm.reads", json!(E::reads(ab, &d) == E::reads(ba, &d)), json!(true), m.as_ref().and_then(|x| mv(x, 0)), h, pend_now, json!({"a": ia + 1, "b": ib + 1}));
+                            self.judge(&["C02"], "law.comm.reads", json!(E::reads_light(ab, &d) == E::reads_light(ba, &d)), json!(true), m.as_ref().and_then(|x| mv(x, 0)), h, pend_now, json!({"a": ia + 1, "b": ib + 1}));
                             self.judge(&["C02", "C20"], "law.comm.state", json!(E::proj(ab, &d) == E::proj(ba, &d)), json!(true), m.as_ref().and_then(|x| mv(x, 1)), h, pend_now, json!({"a": ia + 1, "b": ib + 1}));
                         }
                     } else {
@@ -1179,7 +1192,7 @@ impl<'a, E: Engine> Replayer<'a, E> {
                             let r = mg(b, c).and_then(|bc| mg(a, &bc));
                             if let (Ok(l), Ok(r)) = (l, r) {
                                 let m = if ia < nrep && ib < nrep && ic < nrep { mv(&ob["assoc"], ia).and_then(|x| mv(&x, ib)).and_then(|x| mv(&x, ic)) } else { None };
-                                self.judge(&["C02"], "law.assoc.reads", json!(E::reads(&l, &d) == E::reads(&r, &d)), json!(true), m.as_ref().and_then(|x| mv(x, 0)), h, pend_now, json!({"a": ia + 1, "b": ib + 1, "c": ic + 1}));
+                                self.judge(&["C02"], "law.assoc.reads", json!(E::reads_light(&l, &d) == E::reads_light(&r, &d)), json!(true), m.as_ref().and_then(|x| mv(x, 0)), h, pend_now, json!({"a": ia + 1, "b": ib + 1, "c": ic + 1}));
                                 self.judge(&["C02", "C20"], "law.assoc.state", json!(E::proj(&l, &d) == E::proj(&r, &d)), json!(true), m.as_ref().and_then(|x| mv(x, 1)), h, pend_now, json!({"a": ia + 1, "b": ib + 1, "c": ic + 1}));
                             }
                         }
